@@ -38,8 +38,8 @@ let show_val c v = if c = "Q" then (int_of_z v) / 4 else int_of_z v
 let unshow_val c v = if c = "Q" then z_of_int (v * 4) else z_of_int v
 
 let parse_seq s = List.map int_of_string (List.filter (fun x -> x <> "") (String.split_on_char ',' s))
-let parse_seqs s = List.map parse_seq (String.split_on_char '|' s)
-let show_seqs seqs = String.concat "|" (List.map (fun s -> String.concat "," (List.map string_of_int s)) seqs)
+let parse_seqs s = if s = "-" then [] else List.map parse_seq (String.split_on_char '|' s)   (* "-" = no sequence (m = 0) *)
+let show_seqs seqs = if seqs = [] then "-" else String.concat "|" (List.map (fun s -> String.concat "," (List.map string_of_int s)) seqs)
 
 let bad = ref 0
 (* coverage statistics (printed as a final "#STATS" line): rank entries evaluated, and how many of them belong to a
@@ -113,6 +113,22 @@ let run_tuple c (seqs : int list list) (only_rank : int) =
   else for r = 0 to n do Buffer.add_string b (run_rank c ltb aseqs zseqs r) done;
   print_endline (Buffer.contents b)
 
+(* `sel` line: multisequence_selection only (no data, or rank outside [0, N)): model + specification *)
+let run_sel c (seqs : int list list) (rank : int) =
+  let ltb = ltb_of c in
+  let zseqs = List.map (List.map z_of_int) seqs in
+  let n = List.fold_left (fun a s -> a + List.length s) 0 seqs in
+  incr n_entries;
+  let differs = ref false in
+  let txt = match selection ltb zseqs (z_of_int rank) with
+    | SelThrow -> if rank >= 0 && rank < n then differs := true; "throw"
+    | SelUB -> differs := true; "UB"
+    | SelOk (v, off) ->
+      if rank < 0 || rank >= n || not (check_select ltb zseqs (nat_of_int rank) v (nat_of_int (int_of_z off))) then differs := true;
+      Printf.sprintf "%d:%d" (show_val c v) (int_of_z off) in
+  if !differs then incr bad;
+  print_endline (Printf.sprintf "S%s %s => %d:%s%s" c (show_seqs seqs) rank txt (if !differs then "!MODEL-DIFFERS-FROM-SPEC" else ""))
+
 (* all non-decreasing sequences over 0..keys-1 of a given length, lexicographically *)
 let rec gen_sorted len keys from : int list list =
   if len = 0 then [[]]
@@ -142,6 +158,25 @@ let run_exh c m lo hi keys =
 (* judge one implementation output line *)
 let judge line =
   match String.split_on_char ' ' line with
+  | c :: s :: "=>" :: entries when String.length c = 2 && c.[0] = 'S' ->
+    (* selection-only line: must throw exactly outside [0, N) / without data, else pass check_select *)
+    let c = String.sub c 1 1 in
+    let ltb = ltb_of c in
+    let seqs = parse_seqs s in
+    let zseqs = List.map (List.map z_of_int) seqs in
+    let n = List.fold_left (fun a s -> a + List.length s) 0 seqs in
+    let verdicts = List.filter_map (fun e ->
+      if e = "" || e.[0] = '#' then None else
+      (try match String.split_on_char ':' e with
+        | [r; "throw"] -> let rank = int_of_string r in if rank >= 0 && rank < n then Some ("rank=" ^ r ^ ":selection") else None
+        | [r; v; off] ->
+          let rank = int_of_string r and off = int_of_string off in
+          if rank < 0 || rank >= n || off < 0 ||
+             not (check_select ltb zseqs (nat_of_int rank) (unshow_val c (int_of_string v)) (nat_of_int off))
+          then Some ("rank=" ^ r ^ ":selection") else None
+        | _ -> Some ("unparsable:" ^ e)
+      with _ -> Some ("unparsable:" ^ e))) entries in
+    if verdicts = [] then print_endline "ok" else print_endline ("bad " ^ String.concat " " verdicts)
   | c :: s :: "=>" :: entries ->
     let ltb = ltb_of c in
     let seqs = parse_seqs s in
@@ -153,7 +188,7 @@ let judge line =
       | r :: offs :: rest ->
         (try
           let rank = int_of_string r in
-          let offs = List.map int_of_string (String.split_on_char ',' offs) in
+          let offs = List.map int_of_string (List.filter (fun x -> x <> "") (String.split_on_char ',' offs)) in
           let pbad = List.exists (fun o -> o < 0) offs ||
                      not (check_split ltb zseqs (nat_of_int rank) (List.map nat_of_int offs)) in
           let sbad = match rest with
@@ -181,6 +216,9 @@ let () =
       | ["one"; c; r; s] -> run_tuple c (parse_seqs s) (int_of_string r)
       | ["all"; c; s] -> run_tuple c (parse_seqs s) (-1)
       | ["pad"; x] -> run_pad (Int64.of_string x)
+      | ["sel"; c; r; s] -> run_sel c (parse_seqs s) (int_of_string r)
+      | ["sel"; c; r] -> run_sel c [[]] (int_of_string r)
+      | ["narrow"; c; _; r; s] -> run_tuple c (parse_seqs s) (int_of_string r)   (* RankType is not part of the model *)
       | ["exh"; c; m; lo; hi; keys] -> run_exh c (int_of_string m) (int_of_string lo) (int_of_string hi) (int_of_string keys)
       | [] -> ()
       | _ -> print_endline "?"
